@@ -676,7 +676,13 @@ class Manager:
 
     def _eventDone(self, event, err=None):
         if event.waitingHandlers:
+            if err is not None:
+                # remember the failure until the suspended handlers finish
+                event._failed = err
             return
+
+        if err is None:
+            err = getattr(event, '_failed', None)
 
         # The "%s_done" event is for internal use by waitEvent only.
         # Use the "%s_success" event in your application if you are
